@@ -455,6 +455,12 @@ def generate(rng, tier):
         v = rng.choice([0, 1, (1 << ver) - 1, rng.getrandbits(ver), rng.getrandbits(24), 1 << 47 if ver == 48 else 1 << 63])
         for how in HOWS:
             cases.append(c_rt(('E', ver, v, d), how))
+    # every dialect once with each width it can be printed under (EUI-48 under all eleven, EUI-64 under its own five)
+    for d in range(len(DIALECTS)):
+        for ver in ((48, 64) if d >= 6 else (48,)):
+            v = rng.getrandbits(ver)
+            for how in rng.sample(HOWS, 4):
+                cases.append(c_rt(('E', ver, v, d), how))
     return cases
 
 
